@@ -705,8 +705,9 @@ func (r *run) boot(bt *testing.T, useCache bool) {
 			fmt.Sprintf("%s: a directory made for the cache file has mode %04o", opName, badMode))
 	}
 	if changed {
-		r.violate(InvOwnerOnly, "mode of an existing directory changed",
-			opName+": a directory that existed before the start has another mode (or is gone) after it")
+		// the statement speaks of the directories created for the file: what a
+		// start does to one that was there before is counted, not judged
+		r.probes["existing_directory_mode_changed"]++
 	}
 }
 
